@@ -9,8 +9,9 @@ TB_PARSE = TB_COMMON + [
     "checked against the specification), unicode-segmentation (not modelled)",
 ]
 ASSUME_PARSE = [
-    "the table-driven parser model (Model/Lexer.v, LrDriver.v, Actions.v, Javadoc.v + Gen/) equals Parser::add_content on every input of "
-    "the run: tree, every range, every diagnostic with its message (corr_parse); this is checked, not proved",
+    "the table-driven parser model (Model/Lexer.v, LrDriver.v, Wrappers.v, Actions.v, Javadoc.v + Gen/) equals Parser::add_content on every input of "
+    "the run: tree, every range, every diagnostic with kind, label and related ranges (corr_parse_shape; the wording is compared under C20); "
+    "this is checked, not proved",
 ]
 
 
@@ -74,12 +75,13 @@ def dist_parse(cases):
 
 
 PARSE_PROPS = {
-    "C01": P(["Model/LrDriver.v", "Proofs/Totality.v", "Proofs/ParserState.v", "Properties/C01.v"], [],
+    "C01": P(["Model/LrDriver.v", "Proofs/Totality.v", "Proofs/ParserState.v", "Proofs/Typing.v", "Proofs/Ainfer.v", "Proofs/UserTyped.v",
+              "Proofs/Automaton.v", "Proofs/LexerSafe.v", "Proofs/StackInv.v", "Proofs/DriverSafe.v", "Properties/C01.v"], [],
              gens.gen_C01,
              "hand-picked crashers of the pinned tree + character soups, token soups, mutated/truncated documents, multi-byte characters and "
              "Unicode whitespace injected into gaps/comments/docs/strings, sets of up to 6 partly malformed files, generic nesting to depth "
              "64, inputs up to 20 KB (64 KiB in thorough); every case runs under catch_unwind with a per-shard timeout",
-             runs=[("parse", "P", ["corr_parse"]), ("validate", "V", ["corr_validate"])], x_checks=["keys", "determinism"],
+             runs=[("parse", "P", ["corr_parse_shape"]), ("validate", "V", ["corr_C01_ids"])], x_checks=["keys", "determinism"],
              py_oracle=o_C01, trusted_base=TB_PARSE, assumptions=ASSUME_PARSE + ["native stack depth and running time are observed (no abort, no timeout), not proved"],
              distribution=dist_parse),
     "C02": P(["Model/LrDriver.v"], [], gens.gen_C02,
@@ -87,33 +89,33 @@ PARSE_PROPS = {
              "in 4 layouts (minimal separators; single spaces; wild: Unicode whitespace, CRLF, line/block comments with arbitrary text; safe); "
              "the tree must mirror the abstract document (names, kinds, structure, directions, flags, codes, values, annotations) in "
              "every layout",
-             level="other", runs=[("parse", "P", ["corr_parse"])], py_oracle=o_C02, rerender=gens.rerender,
+             level="other", runs=[("parse", "P", ["corr_parse_shape"])], py_oracle=o_C02, rerender=gens.rerender,
              trusted_base=TB_PARSE, assumptions=ASSUME_PARSE + ["the abstract-document printer and mirror oracle (lib/gen.py, lib/oracles.py) state what 'mirrors' means"],
              distribution=dist_parse),
-    "C03": P(["Model/LrDriver.v", "Proofs/Totality.v", "Proofs/Master.v", "Properties/C03.v"], [], gens.gen_C03,
+    "C03": P(["Model/LrDriver.v", "Proofs/Totality.v", "Proofs/Master.v", "Proofs/RegexLang.v", "Proofs/LexerSafe.v", "Proofs/Keywords.v", "Properties/C03.v"], [], gens.gen_C03,
              "well-formed documents (must be accepted silently), documents malformed by construction (keyword or reserved word as item / "
              "member / package name, missing package, two items, trailing text: must carry an Error), token-level mutations and soups "
              "(no tree => Error; no keyword stored as identifier), lexical corner cases; validation must keep every parse-stage diagnostic",
-             runs=[("parse", "P", ["corr_parse"]), ("validate", "V", ["spec_C03_kept"])], py_oracle=o_C03,
+             runs=[("parse", "P", ["corr_parse_shape"]), ("validate", "V", ["spec_C03_kept"])], py_oracle=o_C03,
              trusted_base=TB_PARSE, assumptions=ASSUME_PARSE, distribution=dist_parse),
     "C04": P(["Model/LrDriver.v", "Proofs/Totality.v", "Properties/C04.v"], [], gens.gen_C04,
              "well-formed documents x 4 layouts (+ multi-byte / Unicode-whitespace injection) and malformed inputs; for every reported range: "
              "ordered, inside the file, on character boundaries, line/column = the lookup's answer, the lookup itself checked against the "
              "specification; every name range covers exactly the name as written, full ranges run from first to last token, children inside "
              "parents, siblings increasing; syntax diagnostics cover exactly the offending token",
-             runs=[("parse", "P", ["corr_parse"]), ("validate", "V", ["spec_C04_validation"])], py_oracle=o_C04,
+             runs=[("parse", "P", ["corr_parse_shape"]), ("validate", "V", ["spec_C04_validation"])], py_oracle=o_C04,
              trusted_base=TB_PARSE, assumptions=ASSUME_PARSE, distribution=dist_parse),
     "C14": P(["Model/LrDriver.v"], [], gens.gen_C14,
              "well-formed items with 1-5 members; at every member position a garbage token string (1-9 tokens over the full vocabulary "
              "without ; { } and, in enums, without ,) followed by the terminator; the same document without it as baseline; a case counts "
              "when the garbage is not itself accepted as a member",
-             level="other", runs=[("parse", "P", ["corr_parse"])], py_oracle=o_C14,
+             level="other", runs=[("parse", "P", ["corr_parse_shape"])], py_oracle=o_C14,
              trusted_base=TB_PARSE, assumptions=ASSUME_PARSE, distribution=dist_parse),
     "C18": P(["Model/Javadoc.v", "Proofs/Javadoc.v", "Properties/C18.v"], [], gens.gen_C18,
              "generated documents with doc comments (paragraphs, lines, @tags; star / plain / one-line decoration; LF and CRLF; ASCII, accented, "
              "CJK, emoji words) on items, members, enum elements and arguments, rendered with ASCII whitespace and ordinary comments "
              "without '/' or '*' in the gaps; plus 36 explicit arrangements (none / ordinary / line comment / doc / doc then ordinary / two "
              "docs / doc before annotations / doc of the previous member / CRLF gap)",
-             runs=[("parse", "P", ["corr_parse"])], py_oracle=o_C18, rerender=gens.rerender,
+             runs=[("parse", "P", ["corr_parse_shape"])], py_oracle=o_C18, rerender=gens.rerender,
              trusted_base=TB_PARSE, assumptions=ASSUME_PARSE, distribution=dist_parse),
 }
